@@ -253,6 +253,54 @@ fn poseidon_chain_components(chain: usize, recompose_use: bool) -> Result<Vec<(&
     Ok(out)
 }
 
+/// Library circuit: both recompose tables (`recompose`, `recompose/coeff`), `n` rows each,
+/// under a packing with a separate lane override per table.
+fn recompose_split_components(n: usize, lanes_plain: usize, lanes_coeff: usize) -> Result<Vec<(&'static str, String)>, String> {
+    let mut b = CircuitBuilder::<Ext4>::new();
+    b.enable_recompose::<KB>(generate_recompose_trace::<KB, Ext4>);
+    for k in 0..2 * n {
+        let coeffs: Vec<ExprId> = (0..4).map(|_| b.public_input()).collect();
+        let packed = if k < n {
+            b.recompose_base_coeffs_to_ext::<KB>(&coeffs)
+        } else {
+            b.recompose_base_coeffs_to_ext_with_coeff_lookups::<KB>(&coeffs)
+        }
+        .map_err(|e| format!("{e:?}"))?;
+        let expected = b.public_input();
+        b.connect(packed, expected);
+    }
+    let circuit = b.build().map_err(|e| format!("build: {e:?}"))?;
+    let mut out = circuit_components(&circuit);
+    out.extend(prep_components::<Ext4, 4>(&circuit));
+    let mut packing = TablePacking::new(1, 1);
+    if lanes_plain > 0 {
+        packing = packing.with_npo_lanes(NpoTypeId::recompose(), lanes_plain);
+    }
+    if lanes_coeff > 0 {
+        packing = packing.with_npo_lanes(NpoTypeId::recompose_with_coeff_lookups(), lanes_coeff);
+    }
+    let npo_prep: Vec<Box<dyn NpoPreprocessor<KB>>> = vec![Box::new(RecomposePreprocessor::new(true))];
+    let air_builders = recompose_air_builders::<KoalaBearConfig, 4>(1, true);
+    match get_airs_and_degrees_with_prep::<KoalaBearConfig, _, 4>(&circuit, &packing, &npo_prep, &air_builders, ConstraintProfile::Standard) {
+        Err(e) => out.push(("airs", format!("err:{e:?}"))),
+        Ok((ad, prim, np)) => {
+            use p3_air::BaseAir;
+            let kinds: Vec<(&str, usize, usize)> = ad.iter().map(|(a, d)| (air_kind(a), BaseAir::<KB>::width(a), *d)).collect();
+            out.push(("airs.kinds_degrees", hx(&format!("{kinds:?}"))));
+            out.push(("airs.primitive_columns", hx(&format!("{prim:?}"))));
+            let mut npv: Vec<(String, String)> = np.iter().map(|(k, v)| (format!("{k:?}"), format!("{v:?}"))).collect();
+            npv.sort();
+            out.push(("airs.non_primitive_columns", hx(&format!("{npv:?}"))));
+            let cfg = config::koala_bear();
+            let (airs, degs): (Vec<_>, Vec<usize>) = ad.into_iter().unzip();
+            let pd = ProverData::from_airs_and_degrees(&cfg, &airs, &degs);
+            let s = pd.common.preprocessed.as_ref().map(|g| format!("{:?}|{:?}", g.commitment, g.matrix_to_instance)).unwrap_or_default();
+            out.push(("commitment", hx(&s)));
+        }
+    }
+    Ok(out)
+}
+
 type LibFn = Box<dyn Fn() -> Result<Vec<(&'static str, String)>, String> + Send + Sync>;
 
 fn library() -> Vec<(String, LibFn)> {
@@ -261,6 +309,10 @@ fn library() -> Vec<(String, LibFn)> {
         ("lib:poseidon2_chain3+recompose".into(), Box::new(|| poseidon_chain_components(3, true))),
         ("lib:poseidon2_chain2+recompose".into(), Box::new(|| poseidon_chain_components(2, true))),
     ];
+    // per-table lane overrides of the two recompose tables (0 = no override)
+    for (a, c) in [(0usize, 0usize), (2, 4), (4, 2), (2, 0), (0, 2), (1, 4)] {
+        v.push((format!("lib:recompose_split8+lanes({a},{c})"), Box::new(move || recompose_split_components(8, a, c))));
+    }
     // every recursion backend configuration of the repository with more than one
     // non-primitive table (see backends.rs)
     v.extend(backends::library());
